@@ -13,6 +13,7 @@ from ..gen import tlbvals as V
 from .. import tracetlb as TR
 from .. import tlbsrc as SRC
 from .. import tlbsrc_tx as SRCTX
+from .. import tlbsrc_blk as SRCBLK
 
 SPEC = dict(
     manifest=dict(
@@ -67,24 +68,44 @@ SPEC = dict(
              '(10). Types that contain a MsgAddressInt carry the hypothesis that no addr_var address occurs in the value (load_address has '
              'none). load_address itself and the dictionary walk are hand models (Model/TlbRdTx.lean) proved against the spec '
              '(c16_model_load_address_*, c16_model_dict_walk) and validated against the library every run. '
-             'All other classes (account.py / block.py / config.py parsers with dictionaries, BlockInfo) remain tied by the sampled and '
-             'read-trace layers only.',
+             'SOURCE TIE, third part (tlb/account.py, block.py, config.py; harness/translate/tlbparsers_blk.py -> Generated/TlbParsersBlk.lean, '
+             'views Spec/Tlb/PyViewBlk.lean): 22 more classes with a theorem c16_src_<Class> of the same form: ConsensusConfig (4 constructors; '
+             'constant tag table), BlockInfo (conditional fields GlobalVersion / master_ref / prev_vert_ref, BlkPrevInfo after_merge), '
+             'DepthBalanceInfo, ValueFlow (both tags), ShardDescr (both tags), AccountStorage, Account, ShardAccount, ValidatorSet '
+             '(validators#11 inline Hashmap read by load_hashmap, validators_ext#12 HashmapE), ShardAccounts / OldMcBlocksInfo / '
+             'BlockCreateStats (load_hashmap_aug_e: the (dict, extras) tuple of the decoded HashmapAugE), ConfigParams (signed keys, Slice '
+             'values), McStateExtra (shard hashes, config, the ^[...] group, block_create_stats iff flags.0), ShardStateUnsplit (accounts, '
+             'the ^[...] group, custom McStateExtra), ShardState (both alternatives), McBlockExtra (shard hashes, ShardFees = Maybe reference + the two '
+             'CurrencyCollections of its extra, the ^[...] group, config iff key_block), AccountBlock (inline HashmapAug 64 ^Transaction '
+             'CurrencyCollection read by load_hashmap_aug), BlockExtra (the three descriptor dictionaries through the regenerated InMsg / OutMsg / '
+             'AccountBlock parsers, custom McBlockExtra), Block (for an ordinary state_update cell: MerkleUpdate.deserialize returns None; a real '
+             'Merkle update is outside the model). Hand models proved against the spec and validated against the library every run: '
+             'load_hashmap (c16_model_dict_walk_inline), load_hashmap_aug_e / parse_aug (c16_model_aug_walk), deserialize_shard_hashes + '
+             'BinTree.deserialize (c16_model_shard_hashes; their source text is pinned by the translator). Declared: values of a dictionary '
+             'read without a value_deserializer (libraries, prev_blk_signatures) are raw Slices and McBlockExtra.shard_fees (the root cell of a '
+             'dictionary the parser does not walk) is a cell, both compared by presence; the ShardAccount cell= bookkeeping argument is not part '
+             'of the statement; the text of MerkleUpdate.deserialize is pinned. '
+             'Remaining on the sampled and read-trace layers only: a Block with a real Merkle update (the bundled main-net block), the other '
+             'config parameters, LibRef / OutAction / OutList.',
         level_note='Theorems are about the Lean spec codec pair (the independent implementation of the schema), for all values. '
                    'For the 29 classes of the SOURCE TIE the parser is regenerated from the source and proved (trusted there: the '
                    'hand model of the Slice methods Model/TlbRd.lean and the translator, both validated every run against the real '
                    'deserialize on generated cells, and the declared views); likewise for the 23 classes of the second part (trusted in addition: '
                    'Model/TlbRdTx.lean = load_address, load_dict with its Patricia walk, the optional / via-reference combinators; the Transaction '
-                   'cell= bookkeeping argument is not part of the statement). The other Python parsers are NOT translated: they are tied by differential testing against the spec encoder on '
+                   'cell= bookkeeping argument is not part of the statement); likewise for the 22 classes of the third part (trusted in addition: '
+                   'Model/TlbRdBlk.lean = load_hashmap, load_hashmap_aug_e with its walk, load_hashmap_aug, deserialize_shard_hashes and MerkleUpdate.deserialize (ordinary cells only) with '
+                   'pinned source text, raw dictionary leaves and shard_fees by presence; Spec/Tlb/PyViewBlk.lean). The other Python parsers are NOT translated: they are tied by differential testing against the spec encoder on '
                    'generated values (every constructor, optional-field combination, boundary and random field values), on '
                    'the bundled block, and by agreement of the typed read sequence on every path of the schema (path-complete / '
                    'local path-complete lists in the text) — a parser branching on a field VALUE the schema does not branch on is '
                    'outside that enumeration. Trusted: transcription of block.tlb into Spec/Tlb/Block.lean, the attribute table in '
                    'harness/props/C16.py, harness/tracetlb.py (recording slice, trace alignment), the driver and cell construction.',
         technique='Lean 4 proof (lawful codec combinators, laws composed by type-class resolution; 29 parser classes regenerated from '
-                  'source and proved to refine the spec decoder, + 23 classes of tlb/transaction.py incl. Transaction for every nesting budget) + differential '
+                  'source and proved to refine the spec decoder, + 23 classes of tlb/transaction.py incl. Transaction for every nesting budget, + 22 classes of '
+                  'account.py / block.py / config.py incl. ValidatorSet, McStateExtra, ShardStateUnsplit, BlockExtra, Block) + differential '
                   'encoder->parser correspondence with the library + path-complete read-trace comparison (recording slice vs '
                   'proved spec trace)'),
-    translators=SRC.translator_entries() + SRCTX.translator_entries(),
+    translators=SRC.translator_entries() + SRCTX.translator_entries() + SRCBLK.translator_entries(),
     design_ref='DESIGN.md §6 C16',
     rule='for every covered type: values generated by the Lean codec generators (every constructor alternative and Maybe/Either '
          'choice at random, integer fields from {0, 1, max, top bit, random}, random bit strings, random small Patricia trees) '
@@ -93,6 +114,7 @@ SPEC = dict(
          'distinct = distinct (type, seed) / (type, mode, seed, path index); non-trivial = encodable',
     trusted_base=['Model/TlbRd.lean (meaning of the Slice methods), harness/translate/tlbparsers.py, Spec/Tlb/PyView.lean (declared views) for the c16_src_* theorems',
                   'Model/TlbRdTx.lean (load_address, load_dict + dictionary walk, optional / viaRef), harness/translate/tlbparsers_tx.py, Spec/Tlb/PyViewTx.lean for the c16_src_* theorems of tlb/transaction.py',
+                  'Model/TlbRdBlk.lean (load_hashmap, load_hashmap_aug_e + walk, deserialize_shard_hashes hand model with pinned source, raw dictionary leaves), harness/translate/tlbparsers_blk.py, Spec/Tlb/PyViewBlk.lean for the c16_src_* theorems of account.py / block.py / config.py',
                   'Spec/Tlb/Block.lean transcribes block.tlb (+ upstream constructors the parsers read) by hand',
                   'harness/props/C16.py READERS: library attribute <-> schema field table', 'harness/gen/tlbvals.py flattening of spec trees',
                   'Drv/Tlb.lean value printing and DAG emission; harness/gen/cells.lib_build',
@@ -897,10 +919,12 @@ def run(ctx):
     # the oracle first), then translator validation (regenerated Lean reader vs the real deserialize on the same cells)
     SRC.theorem_check(ctx, check_value, P)
     SRCTX.theorem_check(ctx, check_value, P)
+    SRCBLK.theorem_check(ctx, check_value, P)
     if ctx.search and ctx.failures:
         return        # a broken c16_src_* obligation already has its concrete failing input
     SRC.validate(ctx)
     SRCTX.validate(ctx)
+    SRCBLK.validate(ctx)
     late = ['TransactionDescr', 'Transaction', 'MsgEnvelope', 'InMsg', 'OutMsg', 'AccountBlock', 'InMsgDescr', 'OutMsgDescr', 'ShardAccountBlocks',
             'McBlockExtra', 'McStateExtra', 'BlockExtra', 'Block', 'ShardStateUnsplit', 'ShardState']
     order = sorted(t for t in P if t not in late) + late
